@@ -127,6 +127,10 @@ fn one(out: &mut Out, s: &str, nontrivial: bool) {
     out.case(&req, &obs, nontrivial);
 }
 
+fn guard_bool(f: impl FnOnce() -> bool) -> bool {
+    std::panic::catch_unwind(std::panic::AssertUnwindSafe(f)).unwrap_or(true)
+}
+
 /// random valid single type as a string
 fn gen_single(rng: &mut Prng, depth: usize, s: &mut String) {
     let r = if depth == 0 { rng.below(14) } else { rng.below(22) };
@@ -245,10 +249,38 @@ pub fn run(cfg: &Cfg) {
             .collect();
         one(&mut out, &s, true);
     }
+    // 5. every Unicode scalar value alone, as array element and as the only struct field, through parser and validator
+    //    (a character is a type code exactly if it is one of the 19 ASCII characters; nothing else may alias one)
+    let mut cp: u32 = 0;
+    let mut chars = 0u64;
+    while cp <= 0x10FFFF {
+        if let Some(c) = char::from_u32(cp) {
+            let strs = [c.to_string(), format!("a{}", c), format!("({})", c)];
+            let mut obs = String::new();
+            let mut want = String::new();
+            for s in &strs {
+                let p = guard_bool(|| Type::parse_description(s).is_ok());
+                let v = guard_bool(|| validate_signature(s).is_ok());
+                obs.push(if p { '1' } else { '0' });
+                obs.push(if v { '1' } else { '0' });
+                let w = spec_split(s).is_some();
+                want.push(if w { '1' } else { '0' });
+                want.push(if w { '1' } else { '0' });
+            }
+            let req = format!("c07.char {}", cp);
+            if obs != want {
+                out.violation(&req, &format!("character U+{:04X} alone / as array element / as struct field: parser,validator verdicts {} but the grammar says {}", cp, obs, want));
+            }
+            out.case(&req, &obs, obs != "000000");
+            chars += 1;
+        }
+        cp += 1;
+    }
+    out.hit_n("unicode_scalars_enumerated", chars);
     out.extra("exhaustive_prefix_cases", exhaustive_cases.to_string());
     out.extra("exhaustive_max_len", maxlen.to_string());
     out.finish(
-        "all strings over the 19 type characters up to the length bound (exhaustive), depth families a^n / (^n / a{s^n(^m for n,m in 29..35, 253..257-byte strings, grammar-generated valid signatures with every single-character delete/replace/insert, random strings with foreign characters; through parse_description+to_str, validate_signature, SignatureWrapper::new, SignatureIter; distinct by request, every case counts as non-trivial",
+        "all strings over the 19 type characters up to the length bound (exhaustive), depth families a^n / (^n / a{s^n(^m for n,m in 29..35, 253..257-byte strings, grammar-generated valid signatures with every single-character delete/replace/insert, random strings with foreign characters, every Unicode scalar value alone / as array element / as struct field (exhaustive); through parse_description+to_str, validate_signature, SignatureWrapper::new, SignatureIter; distinct by request, every case counts as non-trivial",
         true,
     );
 }
